@@ -4,8 +4,8 @@ PROP = {'streams': [('c04', 4000, 400000)],
  'rule': 'histories of 1-8 operations (from_entities / add_entities / upsert_entities / remove_entities; ComputeNow, some EnforceAlreadyComputed on '
          'closed and unclosed inputs, AssumeAlreadyComputed only as last op) over a pool of 4-8 uids: random DAGs, diamonds, dangling parents, '
          'cycles of length 1-5, identical and conflicting duplicates inside one batch, alternative paths around a removed/replaced node, several '
-         'nodes of one chain replaced/removed in one batch, upsert batches naming one uid two or three times interleaved with overwrites of its '
-         'descendants (the known stale-ancestor shape, reported as known finding); plus exhaustively every parent graph on <=3 uids (each uid absent or present with any '
+         'nodes of one chain replaced/removed in one batch, upsert batches naming one uid (present, or new) two or three times interleaved with '
+         'overwrites of its descendants (regression family of the fixed stale-ancestor defect: must produce no failure); plus exhaustively every parent graph on <=3 uids (each uid absent or present with any '
          'parent subset, 729 graphs) x every single add/upsert/remove (thorough: half of all 2-op histories on 3 uids and single ops on 4 uids); '
          "after each op: ok/error kind, every record's sorted parents and ancestors (model vs impl), and on the implementation alone ancestors / "
          'is_descendant_of / `e in a` via the evaluator / is_ancestor_of / `principal in X` via is_authorized on all pairs against a reachability '
@@ -30,10 +30,15 @@ PROP = {'streams': [('c04', 4000, 400000)],
               'add_inv',
               'upsert_multi_repeated_uid_counterexample',
               'upsert_multi_preserves_refuted',
+              'upsert_apply_inv',
+              'upsert_dedup_nodup',
+              'upsert_dedup_spec',
+              'upsert_fix_conservative',
               'upsert_inv',
-              'upsert_distinct_preserves',
+              'upsert_multi_preserves',
               'op_preserves',
               'history_inv',
+              'history_inv_full',
               'in_iff_reach_history_full'],
  'assumptions': ["compute_tc's SCC internals (cyclic_tc) are modelled by their contract (saturation to a fixpoint), not mirrored",
                  'HashMap/HashSet iteration order is modelled by list order; observables are compared sorted',
@@ -42,14 +47,17 @@ PROP = {'streams': [('c04', 4000, 400000)],
                  'reflexive case is only checked for `in`)']}
 
 TEXT = ("Lean theorems over the mirror of the entity store's hierarchy maintenance (from/add/upsert/remove_entities with the three TCComputation modes, "
- 'update_entity_map/deep_eq, the touched-set bookkeeping and stale-edge stripping, repair_tc + add_ancestors DFS, enforce_tc_and_dag): '
- 'enforce_exact, repair_tc exact on acyclic graphs and rejecting only real cycles, the store invariant (ancestors = Reach+ over direct-parent links, '
- 'acyclic, parents/indirect disjoint) preserved by the operations, history induction, `in` = reflexive reachability; the model+spec define '
+ 'update_entity_map/deep_eq, the up-front dedup of an upsert batch (last value of a uid at the position of its first occurrence), the touched-set '
+ 'bookkeeping and stale-edge stripping, repair_tc + add_ancestors DFS, enforce_tc_and_dag): '
+ 'enforce_exact, repair_tc exact on acyclic graphs and rejecting exactly the cyclic ones, the store invariant (ancestors = Reach+ over direct-parent links, '
+ 'acyclic, parents/indirect disjoint) preserved by every operation, history induction, `in` = reflexive reachability; the model+spec define '
  'reachability: any disagreement with Entities::{from,add,upsert,remove}_entities on generated histories (random + exhaustive small scope) is a '
  'failing input.',
- 'proof over a hand-written model; history_inv and `in` = reflexive reachability hold WITHOUT residual hypotheses for all histories of pure '
- 'operations whose upsert batches name each uid at most once: remove_entities (any uid list), add_entities (any batch, AddInvFull), '
- 'upsert_entities (any batch with pairwise distinct uids), from_entities (contract `closure` standing for compute_tc: accepted => invariant), '
- 'and completeness of the cycle detection of repair_tc (accepted => acyclic; cyclic => rejected) are proved; for upsert batches naming a uid '
- "twice the property is refuted (Lean counterexample theorem + reproduced on the implementation, known finding); cyclic_tc's SCC internals are "
+ 'proof over a hand-written model; history_inv (= HistoryInvFull) and `in` = reflexive reachability hold WITHOUT residual hypotheses for ALL histories '
+ 'of pure operations (ComputeNow, inputs without caller-supplied indirect ancestors): remove_entities (any uid list), add_entities (any batch, '
+ 'AddInvFull), upsert_entities (ANY batch, UpsertInvFull: the deduped batch has pairwise distinct uids and the spec result "last value wins" is '
+ 'unchanged by the dedup), from_entities (contract `closure` standing for compute_tc: accepted => invariant), and completeness of the cycle '
+ 'detection of repair_tc (accepted => acyclic; cyclic => rejected) are proved. The model follows upsert_entities as repaired in /repo (defect '
+ 'C04-upsert-batch-repeated-uid-stale-ancestor, fixed); the pre-fix code is kept as upsertEntitiesPreFix with the Lean counterexample theorem as the '
+ "record of the defect, and the harness keeps the repeated-uid histories as a regression family; cyclic_tc's SCC internals are "
  'modelled by contract (ClosureCorrectFull: fuel sufficiency and cycle => `cycle` not proved); correspondence is sampled + exhaustive on <=3 uids')
